@@ -126,6 +126,7 @@ class Source:
 
 class Assembler:
     def __init__(self, unit, fnspecs, twins=True, canaries=True):
+        self.pattern_names = {}
         self.unit = unit
         self.fnspecs = fnspecs
         self.src = Source(unit)
@@ -1077,6 +1078,14 @@ class Assembler:
                     e = self.stmt_end(v, r[0], body_b)
                     inserts.append(Ins(e, h.text, f"hint:{fs.path}", 2))
             text_out = self.render(fi, a, b, edits, inserts)
+            # R21 (guard, no rewrite): a capitalised bare identifier in pattern position (`NAME =>`, `NAME |`, `NAME if`) names a
+            # constant / unit variant in the source; if its definition is not part of the assembled unit the same text would be
+            # a catch-all *binding* here and the extracted function would differ from the one that runs.  Checked in assemble().
+            for k in range(body_a, body_b):
+                if v.is_id(k) and v.text(k)[:1].isupper() and not (v.is_p(k - 1, "::") or v.is_p(k - 1, ".")) \
+                        and (v.is_p(k + 1, "=>") or v.is_p(k + 1, "|") or v.is_id(k + 1, "if")) \
+                        and not any(ra <= k < rb for ra, rb in removed):
+                    self.pattern_names.setdefault(v.text(k), set()).add(fs.path)
         elif mode == "canary":
             text_out = self.render(fi, it.head, pc + 1, [e for e in edits if e.a >= it.head and e.b <= pc + 1], [])
             if where is not None:
@@ -1185,6 +1194,24 @@ impl core::ops::BitOr for {name} {{
                 self.emit(f"\n// ===== prelude {p} =====\n" + ptxt + "\n")
         self.emit("\n// ===== extracted from /repo working tree =====\n")
         open_impl = None
+        # R22: a top-level integer constant of the same source file that a function under contract names and the unit does not
+        # define is extracted with it (mechanically, like a %item), so that a literal given a name keeps its meaning.  Done
+        # before any impl block is opened (a trait impl cannot be split in two).
+        auto_done = set()
+        for e in u.entries:
+            if e[0] != "fn":
+                continue
+            try:
+                fi, it = self.find_fn(e[1].path)
+            except ExtractError:
+                continue
+            for cpath in self.auto_consts(fi, it):
+                if cpath in auto_done:
+                    continue
+                auto_done.add(cpath)
+                self.emit_item(cpath, [])
+                self.log.append({"rule": "R22", "file": fi.v.path.replace(REPO + "/", ""), "line": 0,
+                                 "note": f"constant {cpath} extracted because {e[1].path} names it and the unit does not list it"})
 
         def close_impl():
             nonlocal open_impl
@@ -1281,7 +1308,43 @@ impl core::ops::BitOr for {name} {{
         close_impl()
         self.emit("\n/*@L end*/ } /*@E*/ // verus!\n/*@L end*/ fn main() {} /*@E*/\n")
         text = "".join(self.out)
+        for name, fns in sorted(self.pattern_names.items()):
+            if name in ("None", "Self"):
+                continue
+            if re.search(r"\b(const|static|struct|enum|type)\s+" + name + r"\b", text) or re.search(r"\buse\s[^;]*\b" + name + r"\b", text):
+                continue
+            raise ExtractError(f"lost anchor: {', '.join(sorted(fns))} matches on `{name}`, whose definition is not part of unit {u.name} "
+                               f"(as a bare pattern it would bind instead of compare): add it to the unit with %item")
+        self.log.append({"rule": "R21", "file": "", "line": 0, "note": f"{len(self.pattern_names)} capitalised name(s) in pattern position all resolve to definitions inside the unit"})
         return text
+
+    def auto_consts(self, fi, it):
+        """R22: paths of top-level constants of the function's own file that it names and that nothing in the unit defines"""
+        v = fi.v
+        names = []
+        for k in range(it.start, it.end):
+            if v.is_id(k) and re.fullmatch(r"[A-Z][A-Z0-9_]+", v.text(k)) and not v.is_p(k - 1, "::") and not v.is_p(k - 1, ".") \
+                    and v.text(k) not in names:
+                names.append(v.text(k))
+        if not names:
+            return []
+        sofar = "".join(self.out)
+        todo = []
+        for n in names:
+            pat = r"\b(const|static)\s+" + n + r"\b"
+            if re.search(pat, sofar):
+                continue
+            if any((e[0] == "item" and e[1].split("::")[-1] == n) or (e[0] in ("raw", "implraw") and re.search(pat, e[-1])) for e in self.unit.entries):
+                continue
+            path = f"{fi.mod}::{n}"
+            cands = [c for c in fi.lookup(path) if c.kind == "const" and self.src.item_cfg_ok(fi, c)]
+            if len(cands) == 1:
+                # integer constants only (`const N: <int type> = ...;`): tables and strings keep needing an explicit %item
+                c = cands[0]
+                eq = next((q for q in range(c.kw, c.end) if v.is_p(q, "=")), None)
+                if eq is not None and v.is_p(eq - 2, ":") and (v.text(eq - 1) in INT_TYPES or v.text(eq - 1) == "Cost"):
+                    todo.append(path)
+        return todo
 
     # ------------------------------------------------------------------ fidelity
     def fidelity_check(self, text):
